@@ -23,6 +23,9 @@ def configs():
     out = []
     out.append(('dict', lambda p: ar.dict_archive('d', cached=False), 'any', 'any'))
     out.append(('null', lambda p: ar.null_archive('n', cached=False), 'any', 'any'))
+    # the same archives behind an in-memory cache (klepto.archives.cache): the mapping protocol of the front end
+    out.append(('dict-cached', lambda p: ar.dict_archive('dc', cached=True), 'any', 'any'))
+    out.append(('file-cached', lambda p: ar.file_archive(p + '.pkl', cached=True), 'any', 'any'))
     out.append(('file-pickle', lambda p: ar.file_archive(p + '.pkl', cached=False), 'any', 'any'))
     out.append(('file-pickle-p2', lambda p: ar.file_archive(p + '.pkl', cached=False, protocol=2), 'any', 'any'))
     out.append(('file-json', lambda p: ar.file_archive(p + '.json', cached=False, protocol='json'), 'str', 'json'))
@@ -47,11 +50,11 @@ KEYS = {
     'any': [0, 1, 2, 'a', 'b', (1, 2), (1, 'x'), b'k1', -3, 'key with space', ('t',)],
     'str': ['a', 'b', 'c', 'key', 'k1', 'x y', '7'],
     'lit': [0, 1, 2, 'a', 'b', (1, 2), 'k1'],
-    'dir': [0, 1, 2, 'a', 'b', (1, 2), b'k1', 'k2', 'Key', 'key', 'KEY', 7777, ('t', 1), '_x', 'K_y', -3],
+    'dir': [0, 1, 2, 'a', 'b', (1, 2), b'k1', 'k2', 'Key', 'key', 'KEY', 7777, ('t', 1), '_x', 'K_y', -3, 'x-y', 'u-v-w'],
     'diralias': [0, '0', 1, '1', 'a-b', 'a_b', (1, 2), '(1, 2)', 'z'],
     'dirsrc': ['a', 'b', 'k1', 'zz', 0, 1, 'x-y', -3],
     'dirsrcbad': ['a', 0, (1, 2), 'x y', 2.5, 'k1'],
-    'dirstr': ['a', 'b', 'c', 'key', 'Key', 'k1', 'zz', '_u'],
+    'dirstr': ['a', 'b', 'c', 'key', 'Key', 'k1', 'zz', '_u', 'x-y'],
     'sql': [0, 1, 2, 'a', 'b', 'k1', b'kb', -3, 'x y'],
 }
 VALUES = {
@@ -84,7 +87,7 @@ def gen_ops(rng, kk, vk, n):
     ks, vs = KEYS[kk], VALUES[vk]
     ops = []
     w = dict(set=16, get=8, delete=6, contains=5, len=3, items=4, keys=2, values=2, iter=2, getd=5, pop=6, popd=4,
-             popitem=3, popkeys=4, popkeysd=3, setdefault=4, update=5, clear=1, bad=2, eq=2, copy=1)
+             popitem=3, popkeys=7, popkeysd=3, setdefault=4, update=5, clear=1, bad=2, eq=2, copy=1)
     kinds, weights = list(w), list(w.values())
     for _ in range(n):
         k = rng.choices(kinds, weights)[0]
@@ -101,7 +104,10 @@ def gen_ops(rng, kk, vk, n):
         elif k == 'popd':
             ops.append(('popd', key, val))
         elif k == 'popkeys':
-            ops.append(('popkeys', rng.sample(ks, rng.randint(0, 3))))
+            sel = rng.sample(ks, rng.randint(0, 3))
+            if sel and rng.random() < 0.45:
+                sel = sel + [sel[0]]                 # the same key named twice
+            ops.append(('popkeys', sel))
         elif k == 'popkeysd':
             ops.append(('popkeysd', [rng.choice(ks) for _ in range(rng.randint(0, 3))], val))
         elif k == 'setdefault':
@@ -242,7 +248,7 @@ def run_ops(label, ctor, ops, scratch):
             elif k == 'bad':
                 # a value that cannot be encoded: the operation must fail and leave the contents
                 # unchanged and the archive usable (in-memory archives store any object: skipped)
-                if label not in ('dict', 'null', 'sql-memory', 'sql'):
+                if label not in ('dict', 'null', 'sql-memory', 'sql') and not label.endswith('-cached'):
                     try:
                         a[op[1]] = Bad()
                         problems.append({'step': i, 'op': op, 'what': 'storing a value that cannot be encoded did not fail'})
